@@ -22,8 +22,14 @@ MUTANTS = [
     {'name': 'gumbel-stable-form-nan-corners', 'rule': 'D4.values', 'file': GU,
      'old': "            h = np.power(-np.log(U), self.theta) + np.power(-np.log(V), self.theta)\n            h = -np.power(h, 1.0 / self.theta)\n            cdfs = np.exp(h)",
      'new': "            x = -np.log(U)\n            y = -np.log(V)\n            big = np.maximum(x, y)\n            small = np.minimum(x, y)\n            h = big * np.power(1 + np.power(small / big, self.theta), 1.0 / self.theta)\n            cdfs = np.exp(-h)"},
+    {'name': 'frank-generator-log1p-form', 'rule': 'D6.generator', 'file': 'bivariate/frank.py', 'old': "        a = (np.exp(-self.theta * t) - 1) / (np.exp(-self.theta) - 1)\n        return -np.log(a)", 'new': "        return np.log1p(-np.exp(-self.theta)) - np.log1p(-np.exp(-self.theta * t))"},
+    {'name': 'gumbel-generator-inverse-exponent', 'rule': 'D6.generator', 'file': 'bivariate/gumbel.py', 'old': "        return np.power(-np.log(t), self.theta)", 'new': "        return np.power(-np.log(t), 1.0 / self.theta)"},
+    {'name': 'clayton-generator-positive-exponent', 'rule': 'D6.generator', 'file': 'bivariate/clayton.py', 'old': "        return (1.0 / self.theta) * (np.power(t, -self.theta) - 1)", 'new': "        return (1.0 / self.theta) * (np.power(t, self.theta) - 1)"},
+    {'name': 'gumbel-cdf-clipped-logs', 'rule': 'D4.values', 'file': 'bivariate/gumbel.py', 'old': "            h = np.power(-np.log(U), self.theta) + np.power(-np.log(V), self.theta)\n            h = -np.power(h, 1.0 / self.theta)", 'new': "            h = np.power(-np.log(np.clip(U, 1e-7, 1.0)), self.theta) + np.power(-np.log(np.clip(V, 1e-7, 1.0)), self.theta)\n            h = -np.power(h, 1.0 / self.theta)"},
 ]
 REWRITES = [
+    {'name': 'frank-generator-log-of-ratio-split', 'file': 'bivariate/frank.py', 'old': "        a = (np.exp(-self.theta * t) - 1) / (np.exp(-self.theta) - 1)\n        return -np.log(a)", 'new': "        num = np.exp(-self.theta * t) - 1\n        den = np.exp(-self.theta) - 1\n        return -np.log(num / den)"},
+    {'name': 'clayton-generator-division', 'file': 'bivariate/clayton.py', 'old': "        return (1.0 / self.theta) * (np.power(t, -self.theta) - 1)", 'new': "        return (np.power(t, -self.theta) - 1) / self.theta"},
     {'name': 'clayton-commuted-sum', 'file': C, 'old': "np.power(U[i], -self.theta) + np.power(V[i], -self.theta) - 1,", 'new': "np.power(V[i], -self.theta) - 1 + np.power(U[i], -self.theta),"},
     {'name': 'frank-temporaries', 'file': F, 'old': "        num = (np.exp(-self.theta * U) - 1) * (np.exp(-self.theta * V) - 1)\n", 'new': "        gu = np.exp(-self.theta * U) - 1\n        gv = np.exp(-self.theta * V) - 1\n        num = gv * gu\n"},
     {'name': 'gumbel-pow-operator', 'file': GU, 'old': "            h = np.power(-np.log(U), self.theta) + np.power(-np.log(V), self.theta)\n            h = -np.power(h, 1.0 / self.theta)", 'new': "            h = (-np.log(U)) ** self.theta + (-np.log(V)) ** self.theta\n            h = -(h ** (1.0 / self.theta))"},
